@@ -64,7 +64,8 @@ def cases(draw):
     rnd.no_enable = (mode == "disabled")     # in the other modes exclusion may be switched off and on again at will
     rnd.start()
     if mode == "disabled":
-        rnd.prog.insert(1, ["at", "ExcludeRegion", "off"])
+        # (the user may well send it while the print is paused)
+        rnd.prog.insert(1, ["at", "ExcludeRegion", "off"] + (["paused"] if draw(st.integers(0, 2)) == 0 else []))
     for o in abstract:
         rnd.op(o)
     rnd.prog = gen.respell_prog(rnd.prog, draw(st.sampled_from(["plain", "plain", "plain", "compact", "plus"])))
